@@ -217,6 +217,8 @@ struct StepPlan {
     kind: &'static str,
     /// hard failure at this port operation, counted from the start of the step
     fail_rel: Option<usize>,
+    /// the write at this port operation (counted from the start of the step) accepts nothing
+    zero_rel: Option<usize>,
     only_bytes_judged: bool,
 }
 
@@ -258,10 +260,14 @@ fn run_plan(cx: &Cx, plan: &[StepPlan], eof: bool, benign: (bool, u64, bool)) ->
             w.incoming.extend_from_slice(&st.line);
             let fail_abs = st.fail_rel.map(|r| w.op_index + r);
             w.fail_at = fail_abs;
+            w.zero_at = st.zero_rel.map(|r| w.op_index + r);
+            w.zero_fired = false;
             (w.ops.len(), w.written.len(), w.pos, fail_abs)
         };
         let r = bus.process_message(st.m.clone());
-        let w = shared.lock();
+        let mut w = shared.lock();
+        let zero_fired = std::mem::take(&mut w.zero_fired);
+        w.zero_at = None;
         logs.push(StepLog {
             result: match r {
                 Ok(x) => Ok(x.map(|x| to_static(&x))),
@@ -272,7 +278,7 @@ fn run_plan(cx: &Cx, plan: &[StepPlan], eof: bool, benign: (bool, u64, bool)) ->
             pos_before: pos0,
             pos_after: w.pos,
             incoming: w.incoming.clone(),
-            fired: fail_abs.map(|j| w.op_index > j).unwrap_or(false),
+            fired: fail_abs.map(|j| w.op_index > j).unwrap_or(false) || zero_fired,
         });
     }
     Ok(logs)
@@ -400,11 +406,16 @@ impl Scenario for C16 {
         }
     }
     fn describe(&self) -> &'static str {
-        "real SerialSignBus (built by try_new) over a simulated port: conversations of 1-5 messages on ONE bus (every message kind x reply-line kind: known, unknown, malformed, bad checksum, wrong length, timeout, EOF; earlier steps may suffer a port failure, so leftovers meet the next exchange) with fragmented reads, EINTR and short writes; then for the last message a hard failure injected at every port operation index in turn; every step judged on the port's operation log"
+        "real SerialSignBus (built by try_new) over a simulated port: conversations of 1-5 messages (one in sixteen: 6-12 messages with a far end that mostly fails to answer) on ONE bus (every message kind x reply-line kind: known, unknown, malformed, bad checksum, wrong length, timeout, EOF; earlier steps may suffer a port failure, so leftovers meet the next exchange) with fragmented reads, EINTR, short writes and writes that accept nothing; then for the last message a hard failure injected at every port operation index in turn; every step judged on the port's operation log"
     }
     fn run(&self, cx: &Cx) -> Result<(), Violation> {
-        let nsteps = 1 + cx.draw(5) as usize;
-        let eof = cx.chance(1, 4);
+        // mostly short conversations; now and then a long one in which the far end fails again and again
+        let long = cx.chance(1, 16);
+        if long {
+            cx.probe("long_conversation_with_failing_replies");
+        }
+        let nsteps = if long { 6 + cx.draw(7) as usize } else { 1 + cx.draw(5) as usize };
+        let eof = cx.chance(1, 4) && !long;
         let mut plan: Vec<StepPlan> = Vec::new();
         let mut known: Vec<(Vec<u8>, Option<Message<'static>>)> = Vec::new();
         for k in 0..nsteps {
@@ -416,6 +427,12 @@ impl Scenario for C16 {
             } else if looks_like_hello {
                 cx.probe("unknown_that_looks_like_hello");
                 Message::Unknown(Frame::from(Message::Hello(gens::address(cx))))
+            } else if long && cx.chance(5, 6) {
+                match cx.draw(3) {
+                    0 => Message::Hello(gens::address(cx)),
+                    1 => Message::QueryState(gens::address(cx)),
+                    _ => Message::RequestOperation(gens::address(cx), gens::ALL_OPS[cx.draw(6) as usize]),
+                }
             } else {
                 any_message(cx)
             };
@@ -433,6 +450,18 @@ impl Scenario for C16 {
                 };
                 let l = Frame::from(r.clone()).to_bytes_with_newline();
                 (l, "late-reply-to-previous", Some(Some(r)))
+            } else if due && long && cx.chance(5, 6) {
+                // a far end that keeps failing: no answer in time, or one that does not decode
+                match cx.draw(3) {
+                    0 => (vec![], "empty-timeout", None),
+                    1 => {
+                        let mut l = Frame::from(Message::ReportState(gens::address(cx), State::Unconfigured)).to_bytes_with_newline();
+                        let p = l.len() - 3;
+                        l[p] = if l[p] == b'0' { b'1' } else { b'0' };
+                        (l, "bad-checksum", Some(None))
+                    }
+                    _ => (b"?\r\n".to_vec(), "malformed", Some(None)),
+                }
             } else if due || cx.chance(1, 8) {
                 reply_line(cx)
             } else {
@@ -446,12 +475,14 @@ impl Scenario for C16 {
             }
             // earlier steps may hit a port failure; the last one is enumerated below
             let fail_rel = if k + 1 < nsteps && cx.chance(1, 4) { Some(cx.draw(48) as usize) } else { None };
+            // ... or a port that suddenly accepts no more bytes (a write that returns 0)
+            let zero_rel = if fail_rel.is_none() && cx.chance(1, 12) { Some(cx.draw(3) as usize) } else { None };
             cx.probe(&format!("{}:{}", msg_kind(&m), if due { kind } else { "no-reply-due" }));
             cx.note(|| format!("step #{k}: {}  far end sends [{kind}] {:?}  failure at op {:?}", show(&m), String::from_utf8_lossy(&line), fail_rel));
             // A message of kind Unknown is not a hello / query / request, whatever bytes it wraps:
             // no reply is due (the property speaks about message kinds).
             let _ = looks_like_hello;
-            plan.push(StepPlan { m, line, kind, fail_rel, only_bytes_judged: false });
+            plan.push(StepPlan { m, line, kind, fail_rel, zero_rel, only_bytes_judged: false });
         }
         cx.event("plan", &plan.iter().map(|s| (stable_hash(&s.m), s.kind, s.fail_rel)).collect::<Vec<_>>());
         cx.set_nontrivial();
@@ -526,21 +557,34 @@ impl Scenario for C18 {
         }
     }
     fn describe(&self) -> &'static str {
-        "real SerialSignBus over a simulated port with the sleep seam routed to the simulated clock: sequences of 2-6 messages over all kinds with replies over all 13 states x own/foreign address, all 6 acks and unknown frames; a sixth of the sequences meet a port whose flush fails once (only a tree that flushes notices), a sixth have the caller re-create the bus on the same port between messages; intervals = simulated + real elapsed time at port boundaries"
+        "real SerialSignBus over a simulated port with the sleep seam routed to the simulated clock: sequences of 2-6 messages (one in 64: a poll of 52-120 requests all answered in-progress) over all kinds with replies over all 13 states x own/foreign address, all 6 acks and unknown frames; a sixth of the sequences meet a port whose flush fails once (only a tree that flushes notices), a sixth have the caller re-create the bus on the same port between messages; intervals = simulated + real elapsed time at port boundaries"
     }
     fn run(&self, cx: &Cx) -> Result<(), Violation> {
-        let n = 2 + cx.draw(5);
+        // now and then a long poll: the caller asks 52-120 times in a row and the sign is busy every time
+        let long_poll = cx.chance(1, 64);
+        if long_poll {
+            cx.probe("long_run_of_in_progress_reports");
+        }
+        let n = if long_poll { 52 + cx.draw(69) } else { 2 + cx.draw(5) };
         let mut msgs: Vec<Message<'static>> = Vec::new();
         let mut incoming: Vec<u8> = Vec::new();
         let mut replies: Vec<Option<Message<'static>>> = Vec::new();
         for _ in 0..n {
-            let m = match cx.draw(4) {
-                0 => Message::SendData(Offset(*cx.pick(&[0u16, 16, 32])), gens::data(cx.bytes(gens::chunk_len(cx)))),
-                1 => Message::QueryState(gens::address(cx)),
-                _ => any_message(cx),
+            let m = if long_poll {
+                match cx.draw(8) {
+                    0 => Message::Hello(gens::address(cx)),
+                    1 => Message::RequestOperation(gens::address(cx), gens::ALL_OPS[cx.draw(6) as usize]),
+                    _ => Message::QueryState(gens::address(cx)),
+                }
+            } else {
+                match cx.draw(4) {
+                    0 => Message::SendData(Offset(*cx.pick(&[0u16, 16, 32])), gens::data(cx.bytes(gens::chunk_len(cx)))),
+                    1 => Message::QueryState(gens::address(cx)),
+                    _ => any_message(cx),
+                }
             };
             if reply_due(&m) {
-                let r = match cx.draw(4) {
+                let r = match if long_poll { 0 } else { cx.draw(4) } {
                     0 => Message::ReportState(gens::address(cx), *cx.pick(&[State::PageLoadInProgress, State::PageShowInProgress])),
                     1 => Message::ReportState(gens::address(cx), gens::ALL_STATES[cx.draw(13) as usize]),
                     2 => Message::AckOperation(gens::address(cx), gens::ALL_OPS[cx.draw(6) as usize]),
@@ -643,6 +687,11 @@ impl Scenario for C18 {
                 };
                 if flush_failed && matches!(m, Message::SendData(..)) && written == Frame::from(m.clone()).to_bytes_with_newline() {
                     cx.probe("flush_failed_after_complete_data_chunk");
+                    errored = true;
+                } else if !flush_failed && matches!(&received, Some(Message::ReportState(_, State::PageLoadInProgress | State::PageShowInProgress))) {
+                    // the bus read an in-progress report and then reported an error of its own making:
+                    // the pause before the return is owed whatever the call returns
+                    cx.probe("error_returned_after_in_progress_report");
                     errored = true;
                 } else {
                     cx.discard("exchange-failed");
